@@ -217,4 +217,29 @@ p("c06-p-rename", "C06", FA + "epsilon_nfa.py",
   "        for enfa in enfas:\n            # pylint: disable=protected-access\n            enfa._remove_all_basic_states()\n            # pylint: disable=protected-access\n            regex_sub = enfa._get_regex_simple()",
   "        for one in enfas:\n            one._remove_all_basic_states()\n            regex_sub = one._get_regex_simple()")
 
+# ----------------------------------------------------------------------------- C08
+CYKF = "pyformlang/cfg/cyk_table.py"
+b("c08-no-guard", "C08", CYKF,
+  "        if not self._generates_all_terminals():\n            self._cyk_table[(0, len(self._word))] = set()\n        else:\n            self._set_cyk_table()",
+  "        self._set_cyk_table()", "guarded-lookup")
+b("c08-guard-cell-undefined", "C08", CYKF,
+  "        if not self._generates_all_terminals():\n            self._cyk_table[(0, len(self._word))] = set()\n        else:",
+  "        if not self._generates_all_terminals():\n            pass\n        else:", "full-span-cell-defined-when-unknown-terminal")
+b("c08-empty-word-to-cyk", "C08", "pyformlang/cfg/cfg.py",
+  "        word = [to_terminal(x) for x in word if x != Epsilon()]\n        if not word:\n            return self.generate_epsilon()\n        cyk_table = CYKTable(self, word)\n        return cyk_table.generate_word()",
+  "        word = [to_terminal(x) for x in word if x != Epsilon()]\n        cyk_table = CYKTable(self, word)\n        return cyk_table.generate_word()",
+  "cyk-only-for-non-empty-word")
+b("c08-verdict-any-variable", "C08", CYKF,
+  "        return self._cnf.start_symbol in self._cyk_table[(0, len(self._word))]",
+  "        return bool(self._cyk_table[(0, len(self._word))])", "verdict=start-in-full-span-cell")
+b("c08-guard-always-true", "C08", CYKF,
+  "            if (terminal,) not in self._productions_d:\n                generate_all_terminals = False",
+  "            pass", "guard-tests-membership")
+b("c08-epsilon-not-filtered", "C08", "pyformlang/cfg/cfg.py",
+  "        # Remove epsilons\n        word = [to_terminal(x) for x in word if x != Epsilon()]",
+  "        # Remove epsilons\n        word = [to_terminal(x) for x in word]", "epsilon-filtered")
+p("c08-p-guard-positive-form", "C08", CYKF,
+  "        if not self._generates_all_terminals():\n            self._cyk_table[(0, len(self._word))] = set()\n        else:\n            self._set_cyk_table()",
+  "        if self._generates_all_terminals():\n            self._set_cyk_table()\n        else:\n            self._cyk_table[(0, len(self._word))] = set()")
+
 VARIANTS = V
